@@ -150,7 +150,7 @@ fn measure(c: Cfg) -> Result<allocmeter::Reading, String> {
 }
 
 fn measure_on<W: io::Write>(c: Cfg, sink: W) -> Result<allocmeter::Reading, String> {
-    let digits: Vec<u8> = if c.radix <= 10 { (b'0'..=b'9').collect() } else { b"0123456789ABCDEFGHIJKLMNOPQRSTUVWXYZabcdefghijklmnopqrstuvwxyz{|".to_vec() };
+    let digits: Vec<u8> = if c.radix <= 10 { (b'0'..=b'9').collect() } else if c.radix > 64 { (0x21u8..0x21 + c.radix as u8).collect() } else { b"0123456789ABCDEFGHIJKLMNOPQRSTUVWXYZabcdefghijklmnopqrstuvwxyz{|".to_vec() };
     let mut buf = vec![0u8; c.len + 6];
     if c.entry != Entry::Single {
         // through the Set/Map builders' bulk entry points (default geometry only: they have no geometry hook)
@@ -266,6 +266,8 @@ pub fn run(ctx: &Ctx) -> i32 {
         ("set-one-key-offered-N-times-geom-100x2", 10, 10, true, Some((100, 2)), 1, Shape::OneKeyManyTimes, None),
         ("set-one-key-offered-N-times", 10, 10, true, None, 1, Shape::OneKeyManyTimes, None),
         ("prefix-chain-set-geom-7x2", 10, 10, true, Some((7, 2)), 1, Shape::PrefixChain, None),
+        ("radix100-len5-map-geom-100x2", 100, 5, false, Some((100, 2)), 1, Shape::Fixed, None),
+        ("radix100-len5-set", 100, 5, true, None, 37, Shape::Fixed, None),
         ("grouped-tails-map", 10, 8, false, None, 1, Shape::GroupedTails, None),
         ("grouped-tails-set-geom-100x2", 10, 8, true, Some((100, 2)), 1, Shape::GroupedTails, None),
         ("decimal-map-geom-1x1-on-1-byte-per-call-sink", 10, 10, false, Some((1, 1)), 1, Shape::Fixed, Some(1)),
